@@ -119,6 +119,27 @@ MUTANTS = {
                         "proof-breaks", "pick_parent refuses a node with one remaining parent"),
     "pick-first-unsorted": ("ready", [(CHILD_TAIL, CHILD_TAIL.replace('sorted_nodes[0]', 'available_nodes[0]'))],
                                   "proof-breaks", "pick_child takes the first candidate in dictionary order"),
+    # ---- shared_result_worker_ids (C08, sharedResultWorkerIds_matches_source)
+    "ids-status-eq": ("loc", [('            if result["status"] != "PASS":\n                continue\n            worker_ids',
+                               '            if result["status"] == "PASS":\n                continue\n            worker_ids')],
+                      "proof-breaks", "the workers of the NON-passing results are named"),
+    "ids-any-finished": ("loc", [('            if result["status"] != "PASS":\n                continue\n            worker_ids',
+                                  '            if result["status"] == "UNKNOWN":\n                continue\n            worker_ids')],
+                         "proof-breaks", "every settled result counts (what seeded C08 does)"),
+    "ids-operands-swapped": ("loc", [('                if worker_id in result["name"]:\n                    workers.add(worker_id)',
+                                      '                if result["name"] in worker_id:\n                    workers.add(worker_id)')],
+                             "proof-breaks", "substring test the other way round"),
+    "ids-no-break": ("loc", [('                    workers.add(worker_id)\n                    break\n', '                    workers.add(worker_id)\n')],
+                     "refused", "every matching worker is named (no break: the loop is a nested accumulation)"),
+    "ids-status-lower": ("loc", [('            if result["status"] != "PASS":\n                continue\n            worker_ids',
+                                  '            if result["status"] != "pass":\n                continue\n            worker_ids')],
+                         "proof-breaks", "status compared with the lower-case literal"),
+    "ids-no-guard": ("loc", [('            if result["status"] != "PASS":\n                continue\n            worker_ids', '            worker_ids')],
+                     "proof-breaks", "the status is not looked at"),
+    "ids-add-name": ("loc", [('                    workers.add(worker_id)\n                    break', '                    workers.add(result["name"])\n                    break')],
+                     "proof-breaks", "the result name is collected instead of the worker id"),
+    "ids-last-match": ("loc", [('            for worker_id in worker_ids:\n                if worker_id in result["name"]:', '            for worker_id in reversed(worker_ids):\n                if worker_id in result["name"]:')],
+                       "refused", "the LAST matching worker wins (`reversed` is outside the subset)"),
 }
 
 TARGET = {"ready": ("GenReady.lean", ["I2N.Props.C02"]), "loc": ("GenLoc.lean", ["I2N.Props.C08"])}
